@@ -134,7 +134,15 @@ func runOnce(t *testing.T, w World, tape *Tape) (res RunResult) {
 			defer cur.Store(nil)
 			defer func() {
 				if r := recover(); r != nil {
-					res.HarnessErr = fmt.Sprint(r) + "\n" + string(debug.Stack())
+					stack := string(debug.Stack())
+					fn, file := panicSite(stack)
+					if fn != "" && !strings.Contains(file, "/internal/verif") && !strings.Contains(file, "zz_verif_") {
+						// the code under test panicked while the driver was calling it directly
+						s.Violate("panic", fn, "code under test panicked: %v (at %s %s)", r, fn, file)
+						s.Finish()
+						return
+					}
+					res.HarnessErr = fmt.Sprint(r) + "\n" + stack
 				}
 			}()
 			w.Run(s)
